@@ -19,7 +19,8 @@ CHECKS = {
         "For every string s of <=4 (quick) / <=6 (thorough) bytes over printable ASCII + \\f\\n\\r\\t and every choice of "
         "escaping the control characters or not, the solver shows that the real zitiql.ParseZqlString maps the literal built "
         "by the reference escaper back to exactly s (injectivity is a corollary). Bounded model checking: all paths of the "
-        "real function for those lengths are decided by z3; any model is replayed natively.",
+        "real function for those lengths are decided by z3; any model is replayed natively. Operand positions (=, !=, in, contains): the literal is arbitrary (<=2/3 bytes) or one "
+        "of 13 longer texts spelling operator words and query syntax; the field value arbitrary: the typed query means the literal's exact string.",
         BASE_NOTE + "Outside: longer strings, non-ASCII bytes, the ANTLR lexer's acceptance of the literal (grammar fragment), "
         "operand positions other than the terminal visit that calls ParseZqlString.",
         "6/C11"),
@@ -30,13 +31,17 @@ CHECKS["C13"] = (
     "DecodeStringSlice(EncodeStringSlice(x)) == x on every path of the real encode.go code (binary.PutUvarint/Uvarint interpreted from "
     "std source), equal encodings imply equal lists (<=2 x <=2 bytes), the uvarint pair round-trips every uint64, and components of "
     "127/128/129/4095/4096/4097 bytes (symbolic fill byte) round-trip or are rejected.",
-    BASE_NOTE + "Typed scalar / container / field-checker parts of C13 are added as the bbolt-model harnesses land (see evidence for the harness list).",
+    BASE_NOTE + "Typed scalars (string, optional string, int64, int32 widening, float64 bit patterns, bool, time incl. an arbitrary instant, nil), containers (maps / lists, "
+    "nesting, empty containers) and field-checker-restricted writes (every setter kind, null optional values included) are separate harnesses of the same check (see evidence).",
     "6/C13")
 CHECKS["C14"] = (
-    "For every strictly ordered set of <=3 (quick) / <=4 (thorough) byte strings of <=2 arbitrary bytes (empty string and shared prefixes included) "
-    "and every script of <=2/3 Next/Seek steps with symbolic seek targets, the solver shows on every path that each cursor stands on the first "
+    "For every strictly ordered set of <=3 byte strings of <=2 arbitrary bytes (empty string and shared prefixes included) "
+    "and every script of <=2 (quick) / <=3 (thorough) Next/Seek steps with symbolic seek targets, the solver shows on every path that each cursor stands on the first "
     "admissible element or is invalid iff none exists: raw forward/reverse bolt cursors, typed forward/reverse bolt cursors (values without tag), "
-    "tree-set cursor (any insertion order, both directions, empty set), filtered cursor (symbolic filter bits), union cursor (both directions).",
+    "tree-set cursor (any insertion order, both directions, empty set), filtered cursor (symbolic filter bits), union cursor (both directions). "
+    "Store level, over 2 emps with symbolic ids (1..2 arbitrary bytes) and symbolic role / link membership, the same script against the cursors the store hands "
+    "out: set-index value cursor and key cursor, link-collection cursor, related-entities cursor, IteratorMatchingAllOf / AnyOf, IterateIds, the typed "
+    "string-list cursor, the set symbol's runtime cursor with SeekToString, and one runtime symbol re-opened row after row (no state carried from the previous row).",
     BASE_NOTE + "bbolt is replaced by the mbolt model (single-leaf buckets), validated against real bbolt v1.4.0 on 36k operation sequences; "
     "every counterexample is replayed on real bbolt. Outside: larger sets, longer elements, buckets spanning several pages.",
     "6/C14")
@@ -48,14 +53,16 @@ CHECKS["C03"] = (
     "through the real DbImpl.Update / BaseStore code. The solver shows on every path that the operation is accepted iff the reference model accepts it "
     "(duplicate / empty non-nullable value rejected with UniqueIndexDuplicateError, missing entity as not-found), and that afterwards the entity fields and the "
     "raw unique-index and set-index buckets hold exactly what the successor state implies (no stale, extra or empty keys). One step from every valid state "
-    "covers histories of any length over these bounds.",
+    "covers histories of any length over these bounds. Plus: a child-store entity and a plain one with arbitrary role sets; delete or role rewrite of the child "
+    "entity through either store leaves the parent's indexes exact.",
     BASE_NOTE + "bbolt = mbolt model (validated against bbolt; rollback on error holds by construction and is assumed of bbolt). The three index kinds are "
     "checked in separate harnesses with the other fields fixed. Outside: longer values, more entities, set members that are empty strings.",
     "6/C03")
 CHECKS["C12"] = (
     "Programs are enumerated (all boolean skeletons over distinct bool symbols and the literals true/false with <=3 (quick) / <=4 (thorough) connectives and/or/not, "
-    "printed with minimal and full parentheses, upper/mixed case, extra whitespace, redundant parentheses; plus every case/whitespace spelling of in, between, "
-    "contains, icontains and their not-forms) and parsed by the real lexer/parser natively; the recorded parse-tree walk is replayed against the real "
+    "printed with minimal and full parentheses, upper/mixed case, extra whitespace, redundant parentheses; nested negation included; plus every case/whitespace spelling of in, between, "
+    "contains, icontains and their not-forms, datetime literals with t/z case and blank/tab/newline padding inside the parentheses, and string literals that "
+    "spell operator words) and parsed by the real lexer/parser natively; the recorded parse-tree walk is replayed against the real "
     "ToBoltListener, typer and evaluator inside the executor. Per program the solver decides equality with the formula the text was printed from for every "
     "truth assignment / field value.",
     BASE_NOTE + "The program dimension is enumerated, not symbolic (ANTLR's ATN interpreter is not encodable). `not (P)` directly left of a connective is "
@@ -69,7 +76,8 @@ CHECKS["C02"] = (
     "QueryIdsC -> uniqueIndexScanner / sortingScanner (row comparators, llrb from source, setPaging) returns count = number of matching rows, page length = "
     "min(limit, matches - max(skip,0)) and the rows of rank skip, skip+1, ... under the reference order (nulls first ascending, id tie-break); cursor-style "
     "iteration (IterateIds) returns the same page for unsorted queries.",
-    BASE_NOTE + "Rows are stored through the real Create into the mbolt model. Outside: more rows, longer strings, datetime keys, NaN sort keys.",
+    BASE_NOTE + "Rows are stored through the real Create into the mbolt model. The five-field specification with arbitrary keys runs over two rows (quick: two of the four "
+    "nullable keys symbolic, paging symbolic; thorough: all four symbolic, no paging). Outside: more rows, longer strings, datetime keys, NaN sort keys.",
     "6/C02")
 CHECKS["C04"] = (
     "One inductive step per fk wiring (nullable / non-null fk index, cascade-delete fk index, fk constraint restrict / cascade): arbitrary valid population of "
@@ -78,7 +86,9 @@ CHECKS["C04"] = (
     "referrers exactly; delete of a referenced target is refused with ReferenceExistsError (restrict) or removes exactly the referrers (cascade). The AnyId "
     "harnesses repeat this with a symbolic target id (1..2/3 bytes over printable ASCII incl. quote and backslash, plus \\f\\n\\r\\t): the filter the delete path builds "
     "from the id goes through the recorded parse of the template and the real listener, typer, ParseZqlString and evaluator.",
-    BASE_NOTE + "Self-references and reference cycles are not exercised (meaning under restrict not fixed by the statement; cascade over a cycle recurses - see DESIGN.md). "
+    BASE_NOTE + "Also: a cascading delete inside a transaction that already wrote to the referrers' store (4 adjacent referrers; bbolt then iterates live nodes) and, "
+    "for the nullable cascading fk constraint on a self-referencing store, every assignment of 3 emps to nil / themselves / each other (reference cycles included): "
+    "exactly the transitive referrers go. Self-references under restrict are not exercised (meaning not fixed by the statement). "
     "For a data-dependent filter the ANTLR front end is modelled by the recorded token stream of the template plus the grammar's STRING-body condition; "
     "native replay uses the real parser. Outside: non-ASCII ids, control characters other than the four escapable ones.",
     "6/C04")
@@ -92,15 +102,18 @@ CHECKS["C05"] = (
     "6/C05")
 CHECKS["C16"] = (
     "Population of 2 slots (absent / ordinary / system, symbolic), then one transaction of 2 (quick) / 3 (thorough) symbolic operations (create / update / delete, "
-    "each through the ordinary context or the system context derived from it, each passing any value of IsSystem and Migrate): the transaction is accepted iff no "
-    "operation touches a system entity from the ordinary context; refused transactions change nothing; the stored flag always equals the one at creation.",
+    "each through the ordinary context or the system context derived from it, each passing any value of IsSystem and Migrate, updates with or without a field checker): the transaction is accepted iff no "
+    "operation touches a system entity from the ordinary context; refused transactions change nothing; the stored flag always equals the one at creation. Second harness: system / ordinary entities reference an ordinary "
+    "dept with a cascading delete (fk constraint or fk index); deleting the dept is refused from an ordinary context exactly when a system entity is among the "
+    "referrers, and then nothing changes.",
     BASE_NOTE + "time.Now is a fixed instant.",
     "6/C16")
 CHECKS["C19"] = (
     "The in-memory ObjectStore is checked against the same reference model as C02 (and the null rules of C01): 0..2/3 objects with nullable symbolic fields, "
-    "enumerated filters over non-set symbols (= null, != null, comparisons, and/or, bare bool) x sort specifications, symbolic skip/limit; real "
+    "enumerated filters over non-set symbols (= null, != null, comparisons, and/or, bare bool; string, int64, float64, bool and datetime symbols - datetimes "
+    "arbitrary instants of year 1..9999) x sort specifications, symbolic skip/limit; real "
     "memSortingScanner, object comparators, ObjectCursor. Both stores equal one spec, hence each other.",
-    BASE_NOTE + "Outside: datetime symbols, more objects, longer strings.",
+    BASE_NOTE + "Outside: more objects, longer strings.",
     "6/C19")
 
 CHECKS["C06"] = (
@@ -108,15 +121,21 @@ CHECKS["C06"] = (
     "links and a ref-counted link (count 0..2) to depts, with or without child-store data, next to a bystander sharing targets, is deleted through the parent or "
     "the child store: afterwards a walk over every bucket, key and value finds the id nowhere (bare or type-tagged), boltz.ValidateDeleted agrees, the bystander "
     "and its links are untouched, and the id with its old unique values can be created again with no links and no child data. Same for a dept that is linked "
-    "and ref-count-linked from emps, and for a parent with an extended child store plus a second child store owning a unique index (delete through any of the three).",
+    "and ref-count-linked from emps, and for a parent with an extended child store plus a second child store owning a unique index (delete through any of the three). After the delete the repository's "
+    "own integrity checker reports nothing (indexes and links still mirror the remaining entities). Further: an emp and a dept with the SAME id referencing / linking "
+    "each other (the emp's delete leaves the dept and no back-reference), and a cascading delete of a dept with 4 adjacent referrers inside a transaction that "
+    "already wrote to their store (no dangling reference value remains).",
     BASE_NOTE + "Victim id is a fixed string distinct from every symbolic value. Restricting wirings and cascade are C04's subject.",
     "6/C06")
 CHECKS["C07"] = (
     "Arbitrary population of 2 slots (absent / plain parent / parent+child, symbolic names), then a Db.Update (1 op quick, 2 thorough) or Db.Batch body of "
-    "symbolic operations (create through parent or child store, update through either, field-restricted update, delete through either, create with blank id) "
+    "symbolic operations (create through parent or child store, update through either, field-restricted updates incl. one whose first field is rejected by its "
+    "setter while later fields are valid, delete through either, create with blank id) "
     "under a symbolic failure schedule: constraint veto per change type, duplicate unique value, missing entity, caller error after the body, either of two "
     "pre-commit actions failing. Asserted: each store call returns an error iff one of its steps was rejected; the transaction returns an error iff anything "
-    "failed; then no entity event, commit action or tx-complete listener ran and the stored state equals the pre-state; otherwise the state is the model's.",
+    "failed; then no entity event, commit action or tx-complete listener ran and the stored state equals the pre-state; otherwise the state is the model's. "
+    "Second harness: a manager (parent + child data) referenced by a team through a restricting fk index on the CHILD store: the delete, through either store, "
+    "is refused iff referenced, reaches the caller, changes nothing and fires no event.",
     BASE_NOTE + "'Database left exactly as before' rests on bbolt's rollback, which the mbolt model has by construction (assumed of bbolt); what is checked "
     "is that the error which triggers it always reaches the caller. Storage-level failures of bbolt calls are not injected (no native replay possible).",
     "6/C07")
@@ -125,13 +144,15 @@ CHECKS["C08"] = (
     "untyped, id-only, typed constraint, untyped constraint; each for create+update+delete): the recorded event log equals, element by element, the log derived "
     "from the model: one delivery per listener per committed change, final state for create/update (the stored one, also for field-restricted updates), last state "
     "for delete, child changes once more on the parent store flagged as parent event, none for plain parent entities on the child store, nothing for failed "
-    "transactions, commit actions and tx-complete listeners once.",
+    "transactions, commit actions and tx-complete listeners once. Plus: one MutateContext carrying two transactions in a row (each failing or committing, symbolic): "
+    "the delivered events are exactly those of the committed ones; and a parent with two child stores where the entity lives in either: create / update / delete "
+    "through any store of the family is heard once on its child store, once on the parent, never on the sibling.",
     BASE_NOTE + "Commit actions run in a goroutine in the real code; the executor runs it inline (one schedule), the native replay waits for it. *Async event types are not exercised.",
     "6/C08")
 CHECKS["C09"] = (
     "A consistent population (2 emps with symbolic names, roles, nullable unique nick nil/empty/value, fk references and links to 2 depts) is reported clean and "
-    "left unchanged in check and fix mode. With one corruption injected below the API out of 16 classes (unique index: missing / extra for a missing entity / stale "
-    "entry; set index: missing member, extra member, member of a missing entity, empty key, non-bucket key; fk: missing back-reference, missing back-reference "
+    "left unchanged in check and fix mode. Entity and dept ids are in prefix relation (a / ab, x / xy). With one corruption injected below the API out of 17 classes (unique index: missing / extra for a missing entity / stale "
+    "entry / stale entry of the nullable index pointing at an entity whose field is null; set index: missing member, extra member, member of a missing entity, empty key, non-bucket key; fk: missing back-reference, missing back-reference "
     "bucket, extra back-reference, back-reference of a missing entity, dangling nullable reference; links: one-sided either way, dangling): check mode reports it, "
     "marks nothing fixed and leaves the logical content unchanged; one fix run reports it and an immediate re-check is clean with unique/set indexes, "
     "back-references and links again mirroring the entities.",
@@ -140,8 +161,9 @@ CHECKS["C09"] = (
     "6/C09")
 CHECKS["C15"] = (
     "Parent store + child store (plain and Extended), 2 slots each absent / plain parent / parent+child with symbolic names and child field; one symbolic "
-    "operation through either store (create, update, delete; empty and duplicate names included). Asserted on every path: accepted iff the reference model "
-    "accepts it (the parent's non-nullable unique index applies to both stores); parent part, child data, shared field, parent unique index exactness; child store "
+    "operation through either store (create, update, delete, patch through the child naming only the child field, patch through the parent naming only the shared "
+    "field; empty and duplicate names included); every entity holds a role (parent set index) and a link to a dept (parent link collection). Asserted on every path: accepted iff the reference model "
+    "accepts it (the parent's non-nullable unique index applies to both stores); parent part, child data, shared field, parent unique index, parent set index and the dept's member list exactness; child store "
     "FindById / QueryIds / sorted QueryIds with limit / IterateValidIds return exactly the entities with child data (all parent entities for lookups and queries "
     "when extended); parent store queries return every entity.",
     BASE_NOTE + "The child update handler's mapper is the harness's (copies the caller's shared fields onto the stored child). Create through the child store of an "
@@ -152,7 +174,7 @@ CHECKS["C01"] = (
     "Three layers against one reference semantics (DESIGN.md appendix A.1). (1) Comparison kernel: ~110 programs (every operator x literal kind the grammar "
     "admits on string / int64 / float64 / bool / datetime fields: six comparisons, null tests, in / not in with string, int, float and datetime arrays, between "
     "with inclusive lower and exclusive upper bound, contains / icontains and negations, int-to-float and number-to-string coercion, connectives), field value "
-    "null or symbolic (strings <=2/3 bytes, full-width int64, all float64 bit patterns, datetime samples around the literals): real typer + evaluator == spec. "
+    "null or symbolic (strings <=2/3 bytes, full-width int64, all float64 bit patterns, datetimes arbitrary instants of year 1..9999 with nanoseconds, datetime literals also written with a zone offset): real typer + evaluator == spec. "
     "(2)+(3) Through the store on symbolic populations of 2 (quick) / 3 (thorough) entities: anyOf / allOf / count / isEmpty over a direct string set (elements "
     "arbitrary bytes; the index-seek shortcut is compared with the scan semantics), scalars, fk-dotted symbols, the back-reference set, three-level set paths, "
     "sub-queries, map elements holding a string / int64 / bool / nothing: QueryIds returns exactly the satisfying ids, once each, with the right count.",
@@ -164,7 +186,7 @@ CHECKS["C10"] = (
     "unknown symbol, anyOf / allOf / count incl. sub-query) x every operator form x every literal kind (ill-typed mixes included), bool forms, isEmpty, sort / skip / "
     "limit, string literals with escapes: the real lexer/parser (native) + listener + typer return a query or an error, never a panic; every typed query is then "
     "evaluated over symbolic data (each field null or not, sets empty or not, symbolic values) without panicking. Store level: every query shape on a never-"
-    "written store, an emptied store and an entity with all fields null (QueryIds, IterateIds, IterateValidIds); cursor constructors on empty inputs.",
+    "written store, an emptied store, one and three entities with all fields null (sorting compares null with null; QueryIds, IterateIds, IterateValidIds); cursor constructors on empty inputs.",
     BASE_NOTE + "NOT claimed: termination / no-panic of the ANTLR lexer+parser on arbitrary byte strings and rejection of unrecognised characters (the ATN "
     "interpreter is not encodable; see DESIGN.md section 7 - e.g. the lexer's silent dropping of unknown characters is outside this technique's reach).",
     "6/C10")
@@ -178,11 +200,12 @@ CHECKS["C17"] = (
     "and atomicity with respect to concurrent transactions - file I/O and scheduling are not encodable.",
     "6/C17")
 CHECKS["C20"] = (
-    "65 typed queries covering every AST node kind that can reference a symbol (comparisons of each type incl. int-to-float conversion nodes, in / between / "
+    "68 typed queries covering every AST node kind that can reference a symbol (comparisons of each type incl. int-to-float conversion nodes, in / between / "
     "contains / icontains subjects, null tests, bare bool, map elements, set functions, dotted symbols, sub-queries, sort fields); per query every public / "
     "non-public assignment of the symbols it references (symbolic bits, plus an independent bit making only the first segment of a dotted symbol public): "
     "ValidateSymbolsArePublic accepts iff all referenced symbols are public (map elements iff their map), and a rejection is an UnknownSymbolError naming a "
-    "referenced non-public symbol.",
+    "referenced non-public symbol. Elements of nested maps (tags.a.b.c) included. Validations do not influence each other: after a rejection an unrelated "
+    "acceptable query passes and the same query passes once its symbols are published.",
     BASE_NOTE + "Node kinds are covered through the query family, not generated from go/types.",
     "6/C20")
 
